@@ -321,7 +321,7 @@ class NodeBlock:
                 raise CklRuntimeError(
                     ValueString("ERROR"),
                     "Maximum recursion depth exceeded",
-                    self.pos,
+                    getattr(expression, "pos", None) or self.pos,
                 )
         except CklRuntimeError as e:
             if e.pos is None and self.expressions:
